@@ -87,6 +87,10 @@ def wrap_1d(kind, data, name):
         return pl.Series(name or "", arr.astype(np.float32))
     if kind == "array_f32":
         return arr.astype(np.float32)
+    if kind in ("pd_df_col", "pd_df_one", "pd_df_histogram"):
+        return pd.DataFrame({name or "col": arr})
+    if kind == "pl_frame_select":
+        return pl.DataFrame({name or "col": arr, "other": arr * 2.0 + 1.0})
     if kind == "pl_series":
         return pl.Series(name or "", arr)
     if kind == "pl_series_int":
@@ -175,6 +179,28 @@ def check_1d(case, ctx: Ctx):
         got = ctx.call("Series.physt.h1", container.physt.h1, edges, **akw)
     elif via == "accessor" and kind.startswith("pl_series"):
         got = ctx.call("polars Series.physt.h1", container.physt.h1, edges, **kw)
+    elif kind in ("pd_df_col", "pd_df_one", "pd_df_histogram"):
+        # pandas DataFrame accessor: a column by name (weights may be the name of another column)
+        colname = name or "col"
+        akw = {k: v for k, v in kw.items()}
+        frame = container
+        if ws is not None and kind == "pd_df_col" and len(ws):
+            frame = frame.assign(w=warr)
+            akw["weights"] = "w"
+            ctx.label("weights_by_column_name")
+        if kind == "pd_df_col":
+            frame = frame.assign(unrelated=1.0)
+            got = ctx.call("DataFrame.physt.h1(column)", frame.physt.h1, colname, edges, **akw)
+        elif kind == "pd_df_one":
+            got = ctx.call("DataFrame.physt.h1() on one column", frame.physt.h1, bins=edges, **akw)
+        else:
+            got = ctx.call("DataFrame.physt.histogram(column)", lambda: frame.assign(unrelated=1.0).physt.histogram(colname, bins=edges, **akw))
+        name = colname
+    elif kind == "pl_frame_select":
+        akw = {k: v for k, v in kw.items() if k != "axis_name"}
+        got = ctx.call("polars DataFrame.physt.h(column)", container.physt.h, name or "col", bins=edges, **akw)
+        name = name or "col"
+        case = dict(case, axis_name=None)
     elif kind == "pl_frame1":
         # a one-column polars frame through the .physt namespace gives the 1-D histogram of that column
         akw = {k: v for k, v in kw.items() if k != "axis_name"}
@@ -187,7 +213,7 @@ def check_1d(case, ctx: Ctx):
     # axis name: explicit wins, otherwise the Series name
     if case.get("axis_name"):
         require(got.axis_name == case["axis_name"], "axis_name_explicit", f"{got.axis_name!r}")
-    elif kind.startswith(("pd_series", "pl_series", "pl_frame1")) and name:
+    elif kind.startswith(("pd_series", "pl_series", "pl_frame", "pd_df_")) and name:
         require(got.axis_name == name, "axis_name_from_series", f"{got.axis_name!r} vs {name!r}")
     uniform = ws is None or len(set(ws)) <= 1
     ctx.nt((has_nan and not uniform) or kind == "dask")
@@ -202,7 +228,7 @@ def cases_1d(draw, tier="quick"):
         data[draw(st.integers(0, len(data) - 1))] = float("nan")
     kind = draw(st.sampled_from(["list", "tuple", "iterator", "generator", "nested", "array2d", "array2d_fortran", "array2d_view", "pd_series", "pd_series", "pd_series", "pd_series_int",
                                  "pd_series_Int64", "pd_series_Int64", "pl_series", "pl_series", "pl_series_int", "pl_frame1", "dask", "array2d_fortran", "array2d_view",
-                                 "pd_series_f32", "pd_series_f32", "pl_series_f32", "array_f32"]))
+                                 "pd_series_f32", "pd_series_f32", "pl_series_f32", "array_f32", "pd_df_col", "pd_df_col", "pd_df_one", "pd_df_histogram", "pl_frame_select"]))
     wk, ws = draw(gen.weights_for(len(data), kinds=("none", "int", "dyadic")))
     wcont = draw(st.sampled_from(["array", "array", "list", "pd_series", "pl_series"]))
     if wcont == "pl_series" and not kind.startswith("pl_"):
@@ -538,11 +564,32 @@ def check_dask(case, ctx: Ctx):
         got = ctx.call("dask.h1", pdask.h1, darr, "fixed_width", bin_width=w, dask_method=case["method"])
         also = ctx.call("physt.h1(dask array)", physt.h1, darr, "fixed_width", bin_width=w, adaptive=True)
         cmp_hist(ctx, also, ref, "physt.h1(dask array)")
-    else:
+    elif case["d"] == 2:
         arr2 = np.stack([arr, arr[::-1] * 0.5], axis=1)
         darr = da.from_array(arr2, chunks=(tuple(sizes), 2))
         ref = ctx.call("h(array, adaptive)", physt.h, arr2, "fixed_width", bin_width=w, adaptive=True)
-        got = ctx.call("dask.h", pdask.histogramdd, darr, "fixed_width", bin_width=w, dask_method=case["method"])
+        form = case.get("form", "dd")
+        ctx.label("dask_form_" + form)
+        if form == "h2":
+            # two separately (and differently) chunked columns
+            c0 = da.from_array(arr2[:, 0].copy(), chunks=(tuple(sizes),))
+            c1 = da.from_array(arr2[:, 1].copy(), chunks=max(1, len(arr) // 2))
+            got = ctx.call("dask.h2", pdask.h2, c0, c1, "fixed_width", bin_width=w, dask_method=case["method"])
+        elif form == "columns":
+            c0 = da.from_array(arr2[:, 0].copy(), chunks=(tuple(sizes),))
+            c1 = da.from_array(arr2[:, 1].copy(), chunks=(tuple(sizes),))
+            got = ctx.call("dask.histogramdd([columns])", pdask.histogramdd, [c0, c1], "fixed_width", bin_width=w, dask_method=case["method"])
+        elif form == "split_columns":
+            # the columns of the 2-D array themselves in separate chunks: every block must see whole rows
+            darr = da.from_array(arr2, chunks=(tuple(sizes), 1))
+            got = ctx.call("dask.h (column chunks)", pdask.histogramdd, darr, "fixed_width", bin_width=w, dask_method=case["method"])
+        else:
+            got = ctx.call("dask.h", pdask.histogramdd, darr, "fixed_width", bin_width=w, dask_method=case["method"])
+    else:
+        arr3 = np.stack([arr, arr[::-1] * 0.5, arr * 0.25 + 1.0], axis=1)
+        darr = da.from_array(arr3, chunks=(tuple(sizes), 3))
+        ref = ctx.call("h3(array, adaptive)", physt.h3, arr3, "fixed_width", bin_width=w, adaptive=True)
+        got = ctx.call("dask.h3", pdask.h3, darr, "fixed_width", bin_width=w, dask_method=case["method"])
     a, b = snapshot(ref, stats=False, meta=False), snapshot(got, stats=False, meta=False)
     require(snap_equal(a, b), "dask_differs", lambda: snap_diff(a, b))
     ctx.label(f"chunks{min(len(sizes), 5)}", f"d{case['d']}")
@@ -555,7 +602,8 @@ def check_dask(case, ctx: Ctx):
 def dask_cases(draw, tier="quick"):
     n = draw(st.integers(1, 30))
     return {"w": draw(st.sampled_from([0.5, 1.0, 0.25, 2.5, 0.1])), "xs": draw(st.lists(st.one_of(st.integers(-15, 15).map(float), st.floats(-15, 15, allow_nan=False)), min_size=n, max_size=n)),
-            "chunks": draw(st.lists(st.integers(1, 10), min_size=1, max_size=6)), "d": draw(st.sampled_from([1, 1, 2])), "method": draw(st.sampled_from([None, "thread"])),
+            "chunks": draw(st.lists(st.integers(1, 10), min_size=1, max_size=6)), "d": draw(st.sampled_from([1, 1, 2, 2, 3])),
+            "form": draw(st.sampled_from(["dd", "h2", "columns", "split_columns"])), "method": draw(st.sampled_from([None, "thread"])),
             "nan_at": draw(st.lists(st.integers(0, 40), max_size=3)), "nan_run": draw(st.one_of(st.none(), st.integers(0, 40)))}
 
 
@@ -566,5 +614,5 @@ SUBS = [
     Sub("containers_nd", lambda tier: cases_nd(tier), check_nd, quick=400, thorough=2500),
     Sub("refusals", lambda tier: refusal_cases(tier), check_refusals, quick=100, thorough=500),
     Sub("conversions", lambda tier: conversion_cases(tier), check_conversions, quick=500, thorough=2000),
-    Sub("dask", lambda tier: dask_cases(tier), check_dask, quick=120, thorough=800),
+    Sub("dask", lambda tier: dask_cases(tier), check_dask, quick=160, thorough=800),
 ]
